@@ -272,6 +272,10 @@ func init() {
 
 	// ---- C14: the four observers agree after every step; the packed bytes depend on observable content only ----
 	regCheck("C14", "msg", func(a []*Sx) (bool, []Finding) {
+		if len(a[1].List) == 1 && a[1].List[0].Head() == "note" && len(a[1].List[0].List) > 1 && a[1].List[0].List[1].Atom == "failedwrite" {
+			// a write that fails part way leaves nothing behind in what is not populated (oracle_failedwrite.go)
+			return true, failedWriteFindings(buildMessageSpec(a[0]))
+		}
 		spec := a[0]
 		if len(unrepresentableIDs(spec)) > 0 {
 			return false, nil
